@@ -63,7 +63,12 @@ class E5(object):
             elif k == "catch":
                 out.append(("catch", e["cls"]))
             elif k in ("reg_set", "reg_del"):
-                out.append((k, e["site"][:2]))
+                r = e.get("reg")
+                if isinstance(r, tuple) and len(r) >= 3 and r[0] in ("reg", "attr") and \
+                        isinstance(r[1], tuple) and r[1] and r[1][0] == "obj":
+                    # a store into an object's container; a local list / dict is
+                    # not visible to anybody
+                    out.append((k, e["site"][:2]))
             elif k == "setattr":
                 if e["func"].endswith(".__init__"):
                     continue
